@@ -594,7 +594,7 @@ def decoy_dirs(rng, tpl, files, n=3):
 
 
 # ---------------------------------------------------------------- trees on disk
-def build_tree(root, tpl, files, rng=None, decoys=True):
+def build_tree(root, tpl, files, rng=None, decoys=True, ddirs=()):
     """create the files below `root` (absolute), returns {abs path: id}"""
     paths = {}
     for f in files:
@@ -602,9 +602,9 @@ def build_tree(root, tpl, files, rng=None, decoys=True):
         os.makedirs(os.path.dirname(p), exist_ok=True)
         open(p, "w").close()
         paths[p] = f.id
+    for comps in ddirs:
+        os.makedirs(os.path.join(root, *comps), exist_ok=True)
     if decoys and rng is not None and files:
-        for comps in decoy_dirs(rng, tpl, files, rng.choice([0, 1, 3])):
-            os.makedirs(os.path.join(root, *comps), exist_ok=True)
         for _ in range(rng.choice([0, 0, 1, 2])):
             f = rng.choice(files)
             d = os.path.join(root, *f.rel[:rng.randint(0, len(f.rel) - 1)])
